@@ -5,6 +5,12 @@
 
 package openflow13
 
+import (
+	"net"
+
+	"github.com/contiv/libOpenflow/util"
+)
+
 // C16: offset/width word round trip.
 func lemmaOfsNbitsRoundTrip(ofs, nBits uint16) (uint16, uint16) {
 	w := encodeOfsNbits(ofs, nBits)
@@ -117,4 +123,129 @@ func lemmaFramedSetConfig(flags, miss uint16) []byte {
 	c.Flags, c.MissSendLen = flags, miss
 	b, _ := c.MarshalBinary()
 	return b
+}
+
+// C05, container kinds: instances with element lists of fixed length built in the lemma body (every field of the
+// container and of the elements stays symbolic); encoder, decoder and encoder again are executed symbolically
+// with their list loops unrolled (the unwinding obligation is proved).
+func lemmaContBucket(b *Bucket, a1 *ActionOutput, a2 *ActionGroup) (d *Bucket, err error, b1, b2 []byte) {
+	b.Actions = []Action{a1, a2}
+	b1, _ = b.MarshalBinary()
+	d = new(Bucket)
+	err = d.UnmarshalBinary(b1)
+	if err != nil {
+		return
+	}
+	b2, _ = d.MarshalBinary()
+	return
+}
+
+func lemmaContInstrActions(a1 *ActionSetqueue, a2 *ActionOutput, a0 *ActionGroup, write bool) (i *InstrActions, d Instruction, err error, b1, b2 []byte) {
+	if write {
+		i = NewInstrWriteActions()
+	} else {
+		i = NewInstrApplyActions()
+	}
+	i.AddAction(a1, false)
+	i.AddAction(a2, false)
+	i.AddAction(a0, true) // prepended: ends up first
+	b1, _ = i.MarshalBinary()
+	d = DecodeInstr(b1)
+	if d == nil {
+		err = errDispNil
+		return
+	}
+	b2, _ = d.MarshalBinary()
+	return
+}
+
+func lemmaContMatch(port uint32, mac, mask net.HardwareAddr) (d *Match, err error, b1, b2 []byte) {
+	m := NewMatch()
+	m.AddField(*NewInPortField(port))
+	m.AddField(*NewEthDstField(mac, &mask))
+	b1, _ = m.MarshalBinary()
+	d = new(Match)
+	err = d.UnmarshalBinary(b1)
+	if err != nil {
+		return
+	}
+	b2, _ = d.MarshalBinary()
+	return
+}
+
+func lemmaContGroupMod(g *GroupMod, b *Bucket, a *ActionOutput) (d util.Message, err error, b1, b2 []byte) {
+	b.Actions = []Action{a}
+	g.Buckets = []Bucket{*b}
+	b1, _ = g.MarshalBinary()
+	d, err = Parse(b1)
+	if err != nil || d == nil {
+		return
+	}
+	b2, _ = d.MarshalBinary()
+	return
+}
+
+func lemmaContPacketOut(p *PacketOut, a *ActionOutput, raw *util.Buffer) (d util.Message, err error, b1, b2 []byte) {
+	p.Actions = []Action{a}
+	p.ActionsLen = a.Len()
+	p.Data = raw
+	b1, _ = p.MarshalBinary()
+	d, err = Parse(b1)
+	if err != nil || d == nil {
+		return
+	}
+	b2, _ = d.MarshalBinary()
+	return
+}
+
+// a flow-mod built through the API (one match field, a goto-table and an apply-actions instruction), decoded through Parse
+func lemmaContFlowMod(f *FlowMod, port uint32, table uint8, a *ActionOutput) (d util.Message, err error, b1, b2 []byte) {
+	f.Match = *NewMatch()
+	f.Match.AddField(*NewInPortField(port))
+	ia := NewInstrApplyActions()
+	ia.AddAction(a, false)
+	f.Instructions = nil
+	f.AddInstruction(NewInstrGotoTable(table))
+	f.AddInstruction(ia)
+	b1, _ = f.MarshalBinary()
+	d, err = Parse(b1)
+	if err != nil || d == nil {
+		return
+	}
+	b2, _ = d.MarshalBinary()
+	return
+}
+
+// a bundle-add carrying a group-mod (bundled modifications are flow-, group- and port-mods), decoded through Parse
+func lemmaContBundleAddGroupMod(id uint32, flags uint16, g *GroupMod, b *Bucket, a *ActionOutput) (v *VendorHeader, d util.Message, err error, b1, b2 []byte) {
+	b.Actions = []Action{a}
+	g.Buckets = []Bucket{*b}
+	g.Header.Length = g.Len()
+	v = NewBundleAdd(&BundleAdd{BundleID: id, Flags: flags, Message: g})
+	b1, _ = v.MarshalBinary()
+	d, err = Parse(b1)
+	if err != nil || d == nil {
+		return
+	}
+	b2, _ = d.MarshalBinary()
+	return
+}
+
+// a conntrack action with a nested NAT action, decoded through the action dispatcher
+func lemmaContConnTrack(flags uint16, zone uint32, ipMin, ipMax net.IP, pmin uint16) (c *NXActionConnTrack, d Action, err error, b1, b2 []byte) {
+	nat := NewNXActionCTNAT()
+	nat.SetSNAT()
+	nat.SetRangeIPv4Min(ipMin)
+	nat.SetRangeIPv4Max(ipMax)
+	nat.SetRangeProtoMin(&pmin)
+	c = NewNXActionConnTrack()
+	c.Flags, c.ZoneSrc = flags, zone
+	c.AddAction(nat)
+	b1, _ = c.MarshalBinary()
+	d, err = DecodeAction(b1)
+	if err != nil || d == nil {
+		return
+	}
+	b2, _ = d.MarshalBinary()
+	return
 }
